@@ -37,14 +37,20 @@ End Pres.
 Definition tview (n : node) := (n_name n, n_type n, n_content n).
 Definition mview (x : model) := (m_root x, m_idents x, m_origins x).
 
+(* node part / model part *)
+Definition NV (w w' : world) : Prop :=
+  forall i, option_map tview (w_nodes w' i) = option_map tview (w_nodes w i).
+Definition iview (x : model) := (m_root x, m_idents x).
 Definition SV (w w' : world) : Prop :=
-  (forall i, option_map tview (w_nodes w' i) = option_map tview (w_nodes w i)) /\
-  map mview (w_models w') = map mview (w_models w).
+  NV w w' /\ map mview (w_models w') = map mview (w_models w).
+(* index view: like SV, but the reference_origins maps may differ *)
+Definition IV (w w' : world) : Prop :=
+  NV w w' /\ map iview (w_models w') = map iview (w_models w).
 
 Lemma SV_refl w : SV w w.
-Proof. split; auto. Qed.
+Proof. split; [intros i|]; reflexivity. Qed.
 Lemma SV_trans a b c : SV a b -> SV b c -> SV a c.
-Proof. intros [H1 H2] [H3 H4]. split; [intros i; rewrite H3; apply H1|congruence]. Qed.
+Proof. intros [H1 H2] [H3 H4]. unfold NV in *. split; [intros i; rewrite H3; apply H1|congruence]. Qed.
 
 Notation psv := (pres SV).
 Lemma psv_ro {A} (m : W A) : ro m -> psv m.
@@ -81,7 +87,7 @@ Qed.
 
 Lemma psv_modify_model m f : (forall x, mview (f x) = mview x) -> psv (modify_model m f).
 Proof.
-  intros Hf w r w' H. apply modify_model_inv in H as (x & Hx & _ & ->). split; [reflexivity|]. cbn.
+  intros Hf w r w' H. apply modify_model_inv in H as (x & Hx & _ & ->). split; [intros i; reflexivity|]. cbn.
   apply list_set_map_same. intros y Hy. rewrite Hx in Hy. injection Hy as <-. apply Hf.
 Qed.
 
@@ -161,7 +167,7 @@ Proof.
   wstep H. 2:{ unfold wput in E. injection E as ? ?. discriminate. }
   unfold wput in E. injection E as _ <-.
   assert (HA : SV w (mkWorld (w_nodes w) (w_next w) (w_files w ++ [mkFile m name version None]) (w_models w)))
-    by (split; reflexivity).
+    by (split; [intros i|]; reflexivity).
   wstep H.
   2:{ eapply SV_trans; [exact HA|]. eapply (psv_modify_model m); [|exact E]. reflexivity. }
   assert (HB : SV w w0).
@@ -184,16 +190,16 @@ Proof. intros [H1 H2]. split; [intros i; symmetry; apply H1|symmetry; exact H2].
 Lemma cdata_of_tview n n' : tview n' = tview n -> cdata_of T n' = cdata_of T n.
 Proof. unfold tview, cdata_of, character_data. intros [= _ Ht Hc]. rewrite Hc, Ht. reflexivity. Qed.
 
-Lemma sv_node w w' i n : SV w w' -> w_nodes w i = Some n -> exists n', w_nodes w' i = Some n' /\ tview n' = tview n.
+Lemma sv_node w w' i n : NV w w' -> w_nodes w i = Some n -> exists n', w_nodes w' i = Some n' /\ tview n' = tview n.
 Proof.
-  intros [H _] Hn. specialize (H i). rewrite Hn in H. destruct (w_nodes w' i) as [n'|]; [|discriminate].
+  intros H Hn. specialize (H i). rewrite Hn in H. destruct (w_nodes w' i) as [n'|]; [|discriminate].
   exists n'. split; [reflexivity|]. cbn in H. congruence.
 Qed.
-Lemma sv_none w w' i : SV w w' -> w_nodes w i = None -> w_nodes w' i = None.
-Proof. intros [H _] Hn. specialize (H i). rewrite Hn in H. destruct (w_nodes w' i); [discriminate|reflexivity]. Qed.
+Lemma sv_none w w' i : NV w w' -> w_nodes w i = None -> w_nodes w' i = None.
+Proof. intros H Hn. specialize (H i). rewrite Hn in H. destruct (w_nodes w' i); [discriminate|reflexivity]. Qed.
 
 Lemma short_child_sv w w' n n' :
-  SV w w' -> tview n' = tview n -> option_map tview (short_child T w' n') = option_map tview (short_child T w n).
+  NV w w' -> tview n' = tview n -> option_map tview (short_child T w' n') = option_map tview (short_child T w n).
 Proof.
   intros HS Hv. unfold short_child. assert (Hc : n_content n' = n_content n) by (unfold tview in Hv; congruence).
   rewrite Hc. destruct (n_content n) as [|[s|d] rest]; try reflexivity.
@@ -203,7 +209,7 @@ Proof.
   - rewrite (sv_none _ _ _ HS Es). reflexivity.
 Qed.
 
-Lemma item_name_n_sv w w' n n' : SV w w' -> tview n' = tview n -> item_name_n T w' n' = item_name_n T w n.
+Lemma item_name_n_sv w w' n n' : NV w w' -> tview n' = tview n -> item_name_n T w' n' = item_name_n T w n.
 Proof.
   intros HS Hv. unfold item_name_n. assert (Ht : n_type n' = n_type n) by (unfold tview in Hv; congruence). rewrite Ht.
   destruct (named T (n_type n)); [|reflexivity].
@@ -211,26 +217,26 @@ Proof.
   destruct (short_child T w' n') as [s'|], (short_child T w n) as [s|]; cbn in H; try discriminate; [|reflexivity].
   assert (H' : tview s' = tview s) by congruence. rewrite (cdata_of_tview _ _ H'). reflexivity.
 Qed.
-Lemma identifiable_n_sv w w' n n' : SV w w' -> tview n' = tview n -> identifiable_n T w' n' = identifiable_n T w n.
+Lemma identifiable_n_sv w w' n n' : NV w w' -> tview n' = tview n -> identifiable_n T w' n' = identifiable_n T w n.
 Proof.
   intros HS Hv. unfold identifiable_n. assert (Ht : n_type n' = n_type n) by (unfold tview in Hv; congruence). rewrite Ht.
   pose proof (short_child_sv _ _ _ _ HS Hv) as H.
   destruct (short_child T w' n') as [s'|], (short_child T w n) as [s|]; cbn in H; try discriminate; reflexivity.
 Qed.
 
-Lemma seg_sv w w' i : SV w w' -> seg T w' i = seg T w i.
+Lemma seg_sv w w' i : NV w w' -> seg T w' i = seg T w i.
 Proof.
   intros HS. unfold seg. destruct (w_nodes w i) as [n|] eqn:E.
   - destruct (sv_node _ _ _ _ HS E) as (n' & -> & Hv). unfold seg_n. rewrite (item_name_n_sv _ _ _ _ HS Hv). reflexivity.
   - rewrite (sv_none _ _ _ HS E). reflexivity.
 Qed.
-Lemma identifiable_sv w w' i : SV w w' -> identifiable T w' i = identifiable T w i.
+Lemma identifiable_sv w w' i : NV w w' -> identifiable T w' i = identifiable T w i.
 Proof.
   intros HS. unfold identifiable. destruct (w_nodes w i) as [n|] eqn:E.
   - destruct (sv_node _ _ _ _ HS E) as (n' & -> & Hv). apply identifiable_n_sv; assumption.
   - rewrite (sv_none _ _ _ HS E). reflexivity.
 Qed.
-Lemma ref_text_sv w w' i : SV w w' -> ref_text T w' i = ref_text T w i.
+Lemma ref_text_sv w w' i : NV w w' -> ref_text T w' i = ref_text T w i.
 Proof.
   intros HS. unfold ref_text. destruct (w_nodes w i) as [n|] eqn:E.
   - destruct (sv_node _ _ _ _ HS E) as (n' & -> & Hv). rewrite (cdata_of_tview _ _ Hv).
@@ -238,18 +244,39 @@ Proof.
   - rewrite (sv_none _ _ _ HS E). reflexivity.
 Qed.
 
-Lemma child_of_sv w w' p c : SV w w' -> child_of w p c -> child_of w' p c.
+Lemma child_of_sv w w' p c : NV w w' -> child_of w p c -> child_of w' p c.
 Proof.
   intros HS (n & Hn & Hc). destruct (sv_node _ _ _ _ HS Hn) as (n' & Hn' & Hv). exists n'. split; [exact Hn'|].
   assert (n_content n' = n_content n) by (unfold tview in Hv; congruence). congruence.
 Qed.
 
-Lemma dpath_sv w w' a i q : SV w w' -> dpath T w a i q -> dpath T w' a i q.
+Lemma dpath_sv w w' a i q : NV w w' -> dpath T w a i q -> dpath T w' a i q.
 Proof.
   intros HS H. induction H as [|p c q Hp IH Hc]; [constructor|].
   rewrite <- (seg_sv _ _ c HS). econstructor; [exact IH|]. eapply child_of_sv; eauto.
 Qed.
 
+Lemma SV_IV w w' : SV w w' -> IV w w'.
+Proof.
+  intros [H1 H2]. split; [exact H1|].
+  assert (forall l l' : list model, map mview l' = map mview l -> map iview l' = map iview l).
+  { induction l as [|x l IH]; intros [|x' l']; cbn; try discriminate; auto.
+    intros [= Hr Hi Ho Hl]. unfold iview. rewrite Hr, Hi. f_equal. auto. }
+  auto.
+Qed.
+Lemma IV_sym w w' : IV w w' -> IV w' w.
+Proof. intros [H1 H2]. split; [intros i; symmetry; apply H1|symmetry; exact H2]. Qed.
+Lemma IV_refl w : IV w w.
+Proof. split; [intros i|]; reflexivity. Qed.
+Lemma IV_trans a b c : IV a b -> IV b c -> IV a c.
+Proof. intros [H1 H2] [H3 H4]. unfold NV in *. split; [intros i; rewrite H3; apply H1|congruence]. Qed.
+
+Lemma model_at_iv w w' m x : IV w w' -> model_at w m = Some x -> exists x', model_at w' m = Some x' /\ iview x' = iview x.
+Proof.
+  intros [_ H] Hx. unfold model_at in *. apply (f_equal (fun l => nth_opt l (N.to_nat m))) in H.
+  rewrite !nth_opt_map, Hx in H. destruct (nth_opt (w_models w') (N.to_nat m)) as [x'|]; [|discriminate].
+  exists x'. split; [reflexivity|]. cbn in H. congruence.
+Qed.
 Lemma model_at_sv w w' m x : SV w w' -> model_at w m = Some x -> exists x', model_at w' m = Some x' /\ mview x' = mview x.
 Proof.
   intros [_ H] Hx. unfold model_at in *. apply (f_equal (fun l => nth_opt l (N.to_nat m))) in H.
@@ -257,37 +284,39 @@ Proof.
   exists x'. split; [reflexivity|]. cbn in H. congruence.
 Qed.
 
-Lemma mreach_sv w w' m i : SV w w' -> MReach T w m i -> MReach T w' m i.
+Lemma mreach_iv w w' m i : IV w w' -> MReach T w m i -> MReach T w' m i.
 Proof.
-  intros HS (x & Hx & (q & Hd)). destruct (model_at_sv _ _ _ _ HS Hx) as (x' & Hx' & Hv).
-  exists x'. split; [exact Hx'|]. assert (m_root x' = m_root x) by (unfold mview in Hv; congruence). rewrite H.
-  exists q. eapply dpath_sv; eauto.
+  intros HS (x & Hx & (q & Hd)). destruct (model_at_iv _ _ _ _ HS Hx) as (x' & Hx' & Hv).
+  exists x'. split; [exact Hx'|]. assert (m_root x' = m_root x) by (unfold iview in Hv; congruence). rewrite H.
+  exists q. eapply dpath_sv; [exact (proj1 HS)|exact Hd].
 Qed.
-Lemma specpath_sv w w' m i p : SV w w' -> SpecPath T w m i p -> SpecPath T w' m i p.
+Lemma specpath_iv w w' m i p : IV w w' -> SpecPath T w m i p -> SpecPath T w' m i p.
 Proof.
-  intros HS (x & Hx & (q & Hd & ->)). destruct (model_at_sv _ _ _ _ HS Hx) as (x' & Hx' & Hv).
-  exists x'. split; [exact Hx'|]. assert (m_root x' = m_root x) by (unfold mview in Hv; congruence). rewrite H.
-  exists q. split; [eapply dpath_sv; eauto|]. rewrite (seg_sv _ _ _ HS). reflexivity.
+  intros HS (x & Hx & (q & Hd & ->)). destruct (model_at_iv _ _ _ _ HS Hx) as (x' & Hx' & Hv).
+  exists x'. split; [exact Hx'|]. assert (m_root x' = m_root x) by (unfold iview in Hv; congruence). rewrite H.
+  exists q. split; [eapply dpath_sv; [exact (proj1 HS)|exact Hd]|]. rewrite (seg_sv _ _ _ (proj1 HS)). reflexivity.
 Qed.
-
-Lemma pathset_sv w w' m p i : SV w w' -> PathSet T w m p i -> PathSet T w' m p i.
+Lemma pathset_iv w w' m p i : IV w w' -> PathSet T w m p i -> PathSet T w' m p i.
 Proof.
-  intros HS (H1 & H2 & H3). split; [eapply mreach_sv; eauto|]. split; [rewrite (identifiable_sv _ _ _ HS); exact H2|].
-  eapply specpath_sv; eauto.
+  intros HS (H1 & H2 & H3). split; [eapply mreach_iv; eauto|]. split; [rewrite (identifiable_sv _ _ _ (proj1 HS)); exact H2|].
+  eapply specpath_iv; eauto.
 Qed.
 Lemma refset_sv w w' m p r : SV w w' -> RefSet T w m p r -> RefSet T w' m p r.
-Proof. intros HS (H1 & H2). split; [eapply mreach_sv; eauto|]. rewrite (ref_text_sv _ _ _ HS). exact H2. Qed.
-
-Theorem IndexExact_sv w w' m : SV w w' -> IndexExact T w m -> IndexExact T w' m.
 Proof.
-  intros HS H x' Hx' p i. destruct (model_at_sv _ _ _ _ (SV_sym _ _ HS) Hx') as (x & Hx & Hv).
-  assert (Hi : m_idents x' = m_idents x) by (unfold mview in Hv; congruence). rewrite Hi, (H x Hx p i).
-  split; apply pathset_sv; [exact HS|apply SV_sym; exact HS].
+  intros HS (H1 & H2). split; [eapply mreach_iv; [apply SV_IV; exact HS|exact H1]|].
+  rewrite (ref_text_sv _ _ _ (proj1 HS)). exact H2.
 Qed.
-Theorem IndexNoDup_sv w w' m : SV w w' -> IndexNoDup w m -> IndexNoDup w' m.
+
+Theorem IndexExact_iv w w' m : IV w w' -> IndexExact T w m -> IndexExact T w' m.
 Proof.
-  intros HS H x' Hx'. destruct (model_at_sv _ _ _ _ (SV_sym _ _ HS) Hx') as (x & Hx & Hv).
-  assert (Hi : m_idents x' = m_idents x) by (unfold mview in Hv; congruence). rewrite Hi. apply H. exact Hx.
+  intros HS H x' Hx' p i. destruct (model_at_iv _ _ _ _ (IV_sym _ _ HS) Hx') as (x & Hx & Hv).
+  assert (Hi : m_idents x' = m_idents x) by (unfold iview in Hv; congruence). rewrite Hi, (H x Hx p i).
+  split; apply pathset_iv; [exact HS|apply IV_sym; exact HS].
+Qed.
+Theorem IndexNoDup_iv w w' m : IV w w' -> IndexNoDup w m -> IndexNoDup w' m.
+Proof.
+  intros HS H x' Hx'. destruct (model_at_iv _ _ _ _ (IV_sym _ _ HS) Hx') as (x & Hx & Hv).
+  assert (Hi : m_idents x' = m_idents x) by (unfold iview in Hv; congruence). rewrite Hi. apply H. exact Hx.
 Qed.
 Theorem RefsExact_sv w w' m : SV w w' -> RefsExact T w m -> RefsExact T w' m.
 Proof.
@@ -301,6 +330,33 @@ Proof.
   intros HS H x' Hx'. destruct (model_at_sv _ _ _ _ (SV_sym _ _ HS) Hx') as (x & Hx & Hv).
   assert (Hi : m_origins x' = m_origins x) by (unfold mview in Hv; congruence). rewrite Hi. apply H. exact Hx.
 Qed.
+
+(* the side invariants only look at (name, type, content) of the nodes *)
+Section SideNV.
+Variable check_fn : N -> list N -> res bool.
+Lemma nv_node_back w w' i n' : NV w w' -> w_nodes w' i = Some n' -> exists n, w_nodes w i = Some n /\ tview n' = tview n.
+Proof.
+  intros H Hn. specialize (H i). rewrite Hn in H. destruct (w_nodes w i) as [n|]; [|discriminate].
+  exists n. split; [reflexivity|]. cbn in H. congruence.
+Qed.
+Theorem Inv04_iv w w' : IV w w' -> Inv04 T check_fn w -> Inv04 T check_fn w'.
+Proof.
+  intros HS [I1 I2 I3 IL I4 I5]. pose proof (proj1 HS) as HN. constructor.
+  - intros i n' Hn' Hnm. destruct (nv_node_back _ _ _ _ HN Hn') as (n & Hn & Hv).
+    assert (n_name n' = n_name n /\ n_type n' = n_type n) as (E1 & E2) by (unfold tview in Hv; split; congruence).
+    rewrite E2. eapply I1; eauto. congruence.
+  - intros i n' s Hn' Hnm Hcd. destruct (nv_node_back _ _ _ _ HN Hn') as (n & Hn & Hv).
+    assert (n_name n' = n_name n) as E1 by (unfold tview in Hv; congruence).
+    rewrite (cdata_of_tview _ _ Hv) in Hcd. eapply I2; eauto. congruence.
+  - intros i n' Hn' Hid. destruct (nv_node_back _ _ _ _ HN Hn') as (n & Hn & Hv).
+    rewrite (item_name_n_sv _ _ _ _ HN Hv). rewrite (identifiable_n_sv _ _ _ _ HN Hv) in Hid. eapply I3; eauto.
+  - intros i n' Hn' Hm. destruct (nv_node_back _ _ _ _ HN Hn') as (n & Hn & Hv).
+    assert (n_content n' = n_content n /\ n_type n' = n_type n) as (E1 & E2) by (unfold tview in Hv; split; congruence).
+    rewrite E1. rewrite E2 in Hm. eapply IL; eauto.
+  - intros m. eapply IndexExact_iv; eauto.
+  - intros m. eapply IndexNoDup_iv; eauto.
+Qed.
+End SideNV.
 
 (* ------------------------------------------------------------------ transfer of top-down paths between worlds *)
 (* forwards: along a set P that is closed under the children of w *)
